@@ -300,3 +300,20 @@ pub fn codec(a: &Args) {
     }));
     println!("panicked={}", r.is_err());
 }
+
+/// read_n len=<n> total=<n> chunks=<sizes>
+pub fn read_n(a: &Args) {
+    let chunks: Vec<usize> = a.list_u128("chunks").iter().map(|x| *x as usize).collect();
+    let rt = tokio::runtime::Builder::new_current_thread().enable_time().build().unwrap();
+    match rt.block_on(ractor_cluster::verif_session_probe::verif_read_n(a.usize("len"), a.usize("total"), &chunks)) {
+        Ok((n, intact)) => {
+            println!("result=ok");
+            println!("n={}", n);
+            println!("intact={}", intact as u8);
+        }
+        Err(k) => {
+            println!("result=err");
+            println!("kind={}", k);
+        }
+    }
+}
